@@ -236,6 +236,8 @@ fn message(m: &AisMessage, o: &mut S) {
     close(o); // variant
 }
 
+// sweeps of properties other than C19 hash the lines without the sentence-level message type
+static HIDE_M: std::sync::atomic::AtomicBool = std::sync::atomic::AtomicBool::new(false);
 fn sentence(s: &AisSentence, o: &mut S) {
     open('s', o); sp(o);
     tq(match s.talker_id { TalkerId::AB => 0, TalkerId::AD => 1, TalkerId::AI => 2, TalkerId::AN => 3, TalkerId::AR => 4, TalkerId::AS => 5,
@@ -245,7 +247,7 @@ fn sentence(s: &AisSentence, o: &mut S) {
     opt('o', &s.message_id, o, |x, o| tq(*x as u64, o)); sp(o);
     opt('o', &s.channel, o, |x, o| tq(*x as u32 as u64, o)); sp(o);
     hex('p', &s.data[..], o); sp(o); tq(s.fill_bit_count as u64, o); sp(o);
-    write!(o, "m{}", s.message_type).unwrap(); sp(o);
+    if HIDE_M.load(std::sync::atomic::Ordering::Relaxed) { o.push_str("m_"); } else { write!(o, "m{}", s.message_type).unwrap(); } sp(o);
     opt('o', &s.message, o, message);
     close(o);
 }
@@ -389,7 +391,10 @@ fn main() {
                 let p2: usize = f[2].parse().unwrap();
                 let decode = f[3] == "1";
                 let fix = f[4] == "1";
-                let mut bytes = unhex(f[5]);
+                // flags: 1 = the private state hint is part of the digest, 2 = the sentence-level message type is
+                let flags: u32 = f[5].parse().unwrap();
+                let mut bytes = unhex(f[6]);
+                HIDE_M.store(flags & 2 == 0, std::sync::atomic::Ordering::Relaxed);
                 let star = bytes.iter().rposition(|b| *b == b'*');
                 // the checksummed body of the template starts behind its tag block, if it has one
                 let b0 = if bytes.first() == Some(&b'\\') { bytes[1..].iter().position(|b| *b == b'\\').map(|j| j + 3).unwrap_or(1) } else { 1 };
@@ -411,7 +416,7 @@ fn main() {
                         let r = catch_unwind(AssertUnwindSafe(|| parser.parse(&bytes, decode))).map_err(|_| ());
                         t.clear();
                         step_tokens(&r, &mut t);
-                        state_tokens(&parser, &mut t);
+                        if flags & 1 != 0 { state_tokens(&parser, &mut t); }
                         t.push('\n');
                         for b in t.bytes() {
                             h1 = (h1 ^ b as u32).wrapping_mul(16777619);
@@ -419,6 +424,7 @@ fn main() {
                         }
                     }
                 }
+                HIDE_M.store(false, std::sync::atomic::Ordering::Relaxed);
                 write!(o, "A {:08x}{:08x}", h1, h2).unwrap();
             }
             "B" => {
@@ -482,6 +488,21 @@ fn main() {
                     _ => panic!("bad f case"),
                 };
                 optf(&v, &mut o);
+            }
+            "T" => {
+                // nom::bits::complete::take itself (the dependency's bit reader, transcribed in Model/NomBits.v)
+                let count: usize = f[1].parse().unwrap();
+                let off: usize = f[2].parse().unwrap();
+                let bytes = unhex(f[3]);
+                let r = catch_unwind(|| {
+                    let r: nom::IResult<(&[u8], usize), u64> = nom::bits::complete::take(count)((&bytes[..], off));
+                    r.map(|((rest, eo), v)| (rest.len(), eo, v)).map_err(|_| ())
+                });
+                match r {
+                    Err(_) => o.push_str("(k c9)"),
+                    Ok(Err(())) => o.push_str("(k c2)"),
+                    Ok(Ok((rest, eo, v))) => { write!(o, "(k c0 i{} q{} q{})", v, rest, eo).unwrap(); }
+                }
             }
             "" => continue,
             _ => panic!("bad case line"),
